@@ -2,6 +2,7 @@
 -> harness replay on the real code -> Trace validation (TLC judges the recorded trace)."""
 import hashlib
 import json
+import zlib
 import os
 import time
 
@@ -147,6 +148,25 @@ def obs_sig(v):
                 expected=(d.get("expected") or {}).get("t"), got=(d.get("got") or {}).get("t"))
 
 
+def driver_policy(beh, mod):
+    """vec / adapters layers: field v of the first record (`New`) carries the driver policy (bit 0: a subscriber / pipe is always
+    polled with the same waker instead of a fresh one per poll; bits 1, 2 (vec): how the vector and its initial contents are
+    created); the policy is a hash of the behaviour (not its position: TLC's output order varies), and a replay file fixes
+    the policy it failed under."""
+    tmp = beh + ".tmp"
+    with open(beh) as f, open(tmp, "w") as o:
+        for i, line in enumerate(f):
+            line = line.strip()
+            if not line:
+                continue
+            b = json.loads(line)
+            if isinstance(b, list) and b and isinstance(b[0], dict) and b[0].get("op") == "New":
+                b[0]["v"] = zlib.crc32(line.encode()) % mod
+                line = json.dumps(b, separators=(",", ":"))
+            o.write(line + "\n")
+    os.replace(tmp, beh)
+
+
 def waker_policy(beh, both=None):
     """The first record of an obs behaviour (`New`) carries the driver's waker policy in its spare field n: 0 = every poll
     uses a fresh waker, 1 = a subscriber is always polled with the same waker (what an executor does; exercises
@@ -161,7 +181,7 @@ def waker_policy(beh, both=None):
             if not line:
                 continue
             b = json.loads(line)
-            pols = (0, 1) if lo <= i < hi else (i % 2,)
+            pols = (0, 1) if lo <= i < hi else (zlib.crc32(line.encode()) % 2,)
             for pol in pols:
                 b[0]["n"] = pol
                 o.write(json.dumps(b, separators=(",", ":")) + "\n")
@@ -365,9 +385,23 @@ def replay(prop, path, work):
     else:
         raise ToolError("cannot replay layer %r" % layer)
     print(open(trace).read())
-    mine = [v for v in val["violations"] if v["prop"] == prop]
+    mine = [v for v in val["violations"] if v["prop"] == prop or prop in v.get("props", ())]
     for v in val["violations"]:
         print("clause failed: property=%s clause=%s event=%d detail=%s" % (v["prop"], v["clause"], v["event"], json.dumps(v["detail"])))
+    # the same matching against the committed known findings as in a full run
+    sig_of = {"adapters": ad_sig}.get(layer)
+    if mine and sig_of:
+        known = load_known()
+        rest = []
+        for v in mine:
+            k = match_known(prop, sig_of(v), known)
+            if k:
+                print("KNOWN-FINDING: property=%s %s (%s)" % (prop, k["what"], k["id"]))
+            else:
+                rest.append(v)
+        mine = rest
+        if not mine:
+            return 0
     if mine:
         print("VIOLATION property=%s replay=%s" % (prop, path))
         return 1
@@ -447,7 +481,16 @@ def vec_sig(v):
 def vec_validate(trace, work):
     c = os.path.join(work, "TraceVec.cfg")
     write_cfg(c, spec="TraceSpec", constants=VEC_TRACE, postcondition="TraceAccepted")
-    return validate("TraceVec", c, trace, work)
+    val = validate("TraceVec", c, trace, work)
+    for v in val["violations"]:
+        d = v["detail"]
+        # a delivered diff that no pending message explains, or a missing one, while a commit is pending and no lag is possible,
+        # contradicts C07 (the commit is not published as the unit it was) AND C05 (replaying does not reproduce the states /
+        # the two stream flavours differ)
+        if v["prop"] == "C07" and v["clause"] in ("unexplained-diff", "diffs-missing") and d.get("op") == "Poll" \
+                and not len(d.get("msgs", [])) > d.get("cap", 0):
+            v["props"] = ("C07", "C05")
+    return val
 
 
 def vec_pipeline(prop, tier, seed, work, t0):
@@ -473,7 +516,8 @@ def vec_pipeline(prop, tier, seed, work, t0):
         C05=[("SpecStreams", dict(Caps={16}, Depth=5 if quick else 6), "edge"), ("SpecTxn", dict(Caps={16}, Depth=5, SubIds={1}), "edge"),
              ("SpecStreamsPre", dict(pre, Caps={16}, Depth=4 if quick else 5, InitLens={3}), "edge"),
              ("SpecTxnCore", dict(pre, Caps={16}, Depth=7 if quick else 8), "edge"),
-             ("SpecTxnCore", dict(pre, Caps={16}, Depth=6 if quick else 7, PreSubs={1}), "tree")],
+             ("SpecTxnCore", dict(pre, Caps={16}, Depth=6 if quick else 7, PreSubs={1}), "tree"),
+             ("SpecTxnSmall", dict(pre, Caps={16}, Depth=6 if quick else 7), "edge")],
         C06=[("SpecStreams", dict(Caps={1, 2}, Depth=5 if quick else 6, MaxLen=2), "edge"),
              ("SpecTxn", dict(Caps={1}, Depth=6 if quick else 7, SubIds={1}, MaxLen=1), "edge"),
              ("SpecStreamsPre", dict(pre, Caps={1, 2}, Depth=4 if quick else 5), "edge"),
@@ -512,6 +556,7 @@ def vec_pipeline(prop, tier, seed, work, t0):
                           timeout=3000)
     n += k
     log("gen sim: %d" % k)
+    driver_policy(beh, 8)
     # ---- 3. real code
     trace = os.path.join(work, "trace.ndjson")
     hrc = run_harness(["vec-replay", beh, trace])
@@ -681,7 +726,9 @@ def ad_sig(v):
         ps = set(d.get("pset", [[]] * stage)[stage - 1])
         fn = set(d.get("fin", [[]] * stage)[stage - 1])
         inlen = d.get("inlen", 0)
-        if st.get("kind") in LIMIT_KINDS and any(o > inlen > n >= 1 for o in ps for n in fn):
+        # D2: a decrease o -> n with o > length > n >= 1.  Both limits may belong to an EARLIER poll of the same quiescent
+        # period (a limit change's PopFronts are parked and handed out one per poll), so n ranges over pset as well
+        if st.get("kind") in LIMIT_KINDS and any(o > inlen > n >= 1 for o in ps for n in (fn | ps)):
             cause = "limit-decrease-from-beyond-length"
         elif str(st.get("kind", "")).startswith("sort") and "Truncate" in d.get("outkinds", []):
             # a sort stage never produces a Truncate of its own: one in its output is a forwarded source Truncate
@@ -689,6 +736,23 @@ def ad_sig(v):
             cause = "truncate-forwarded"
         elif "Reset" in d.get("inkinds", []):
             cause = "reset-input"
+    if cause is None and st and d.get("op") == "Poll":
+        # D2 one or more UNTAPPED stages below (an adapter used as the observer of the next one has no tap of its own, so its
+        # wrong output first shows as a failure of the stage above): the same condition, evaluated for that stage, on the length
+        # of its own input before / after this poll
+        j = stage - 1
+        views, newviews = d.get("views") or [], d.get("newviews") or []
+        while j >= 1 and chain[j - 1].get("self", 0) == 1:
+            low = chain[j - 1]
+            if low.get("kind") == "tail":
+                ps = set(d.get("pset", [[]] * j)[j - 1])
+                fn = set(d.get("fin", [[]] * j)[j - 1])
+                lens = {len(v[j - 1]) for v in (views, newviews) if len(v) >= j}
+                if any(o > ln > n >= 1 for o in ps for n in (fn | ps) for ln in lens):
+                    cause = "limit-decrease-from-beyond-length"
+                    sig.update(stage_kind="tail", stage_mode=low.get("mode"), stage_family="tail", root_stage=j)
+                    break
+            j -= 1
     if d.get("op") == "Begin":
         cause = "initial-values"
     sig["cause"] = cause
@@ -810,6 +874,7 @@ def adapters_pipeline(prop, tier, seed, work, t0):
                                   timeout=3000)
         n += k
         log("gen %s %s: %d (%.1fs)" % (spec, mode, k, r["wall"]))
+    driver_policy(beh, 2)
     trace = os.path.join(work, "trace.ndjson")
     hrc = run_harness(["adapters-replay", beh, trace])
     val = ad_validate(trace, work)
@@ -962,6 +1027,10 @@ def tokens_pipeline(prop, tier, seed, work, t0):
     parts.append(("adapters", b, ["adapters-replay", b, None, "--track"], kk))
     crashed = None
     for layer, b, cmd, cnt in parts:
+        if layer == "obs":
+            waker_policy(b)
+        else:
+            driver_policy(b, 8 if layer == "vec" else 2)
         trace = os.path.join(work, "trace-%s.ndjson" % layer)
         cmd = [x if x is not None else trace for x in cmd]
         bin_ = build_harness()
